@@ -26,6 +26,7 @@ git apply /tmp/seed_$SID.diff
 cp /tmp/seed_$SID.diff "$OUT/patch.diff"
 cp "$DEMO" "$OUT/"
 [ -f NOTES.md ] && cp NOTES.md "$OUT/NOTES.md"
+for f in observe_*.py; do [ -f "$f" ] && cp "$f" "$OUT/"; done
 echo "== check against /repo with patch"
 cd /repo && git apply "$OUT/patch.diff" || { echo "PATCH DOES NOT APPLY TO /repo"; exit 8; }
 cd /verif && /venv/bin/python -m sa.check "$PROP" --tier quick --no-evidence 2>&1 | grep -v conda | tail -12; RC_CHECK=${PIPESTATUS[0]}
